@@ -415,7 +415,7 @@ def refactorings():
     rows6 = []
     for line in res.read_text().splitlines():
         m = re.match(r"\| (R\d\d-\d) \| ([A-Za-z-]+) \| ([^|]*) \| ([^|]*) \|", line)
-        if m:
+        if m and m.group(1) < "R21":
             rows6.append(tuple(x.strip() for x in m.groups()))
     if not rows6:
         return
@@ -484,11 +484,78 @@ def round7():
     p = V / "DESIGN.md"
     s = p.read_text()
     a = s.find("### 9.4g ")
-    b = s.find("### 9.5 ")
+    b = min(x for x in (s.find("### 9.4h "), s.find("### 9.5 ")) if x != -1)
     if a == -1:
         a = b
     p.write_text(s[:a] + intro + t_ + changes + s[b:])
     print(f"### 9.4g written: {len(r_)} seeds, {len(twins)} twins")
+
+
+INTRO8 = """### 9.4h Eighth round: a third batch of refactorings (the Python the seventh round had not met)
+
+Six more fresh sub-agents (same isolation; functional.py, hedger.py, the derivatives, the primaries, the features, the small modules and
+`bisect`) wrote four behaviour-preserving refactorings each, this time required to use at least one of: a decorator of their own applied to
+several functions, a context manager of their own, `try`/`except`/`else` for a look-before-you-leap test, a generator consumed lazily
+(`next`, `islice`, `zip` with a range), a pipeline composed with `reduce` over a tuple of steps, a correctly keyed memo, a template method
+with per-class hooks, delegation to a helper object, class-level tables driving several methods, a small private class carrying
+intermediate values, helpers moved to another module. 24 candidates, all re-confirmed (`refactorings/R21-k` ... `R26-k`: suite 933/933, same
+behaviour digest). First run against the checks as they stood after §9.4g: 14 silent in all twenty checks, 4 false alarms (R22-1, R22-2,
+R23-1, R26-4), 6 analysis errors (R21-3, R22-3, R24-1, R25-2, R26-1, R26-2). After the work below all 24 are silent; the full benches
+(271 seeded defects, 134 refactorings, 664 scripted variants) were re-run afterwards.
+
+| refactoring | verdict | checks that do not exit 0 | what the change is |
+|---|---|---|---|
+"""
+
+CHANGES8 = """
+What the eighth round changed:
+
+* **A function whose INNER function yields is not a generator** (R22-3: `fit` with a local generator `training_steps`): the test walked into
+  nested definitions, `fit` itself was "drained" and returned an empty list - reported by C15 as a wrong return value. Generators are
+  recognised by their own yields only. Endless generators whose yields end the passes over the loop body (`if validation: ...; yield loss`
+  / `else: yield None`) are stepped one pass per `next()`; `for a, b in zip(xs, gen)` advances `gen` once per element of `xs`.
+* **A decorated function called through its wrapper is ONE call of the public name** (R22-1: `compute_portfolio` decorated): the wrapper's
+  call of the undecorated function had logged a second `compute_portfolio` event, and C06.R3 / C15 counted two portfolios per evaluation.
+* **Generator-based context managers** (R22-2: `_grad_mode`, written with `torch.is_grad_enabled()` / `torch.set_grad_enabled(x)` as statements
+  and `try: yield finally: restore`): the manager's body is run at the `with` statement and its `yield` runs the block; a `return` inside
+  the block unwinds through the manager; a grad mode switched by statement opens a region that lasts until the saved mode is put back -
+  the same region events a `with torch.set_grad_enabled(x):` gives, so C14.R4 / C06.R3 judge it unchanged (and report a manager that
+  switches to a fixed mode).
+* **`inspect.signature(init).bind(self, *args, **kwargs).arguments`** (R23-1: one decorator for the deprecated `dtype` / `device` arguments of
+  five constructors): the given arguments by parameter name; without it every constructor "raised DeprecationWarning on every path".
+* **Exceptions as values** (R24-1: a generator of validation errors, `error = next(errors, None); if error is not None: raise error`),
+  `next` on a drained pure generator, methods taken off `Tensor` (`Tensor.cummax(x, dim)` in a table, R25-2), `next(v for v in gen if
+  cond)` over a generator object as the loop it abbreviates (R26-2: `bisect` as `next(upper for lower, upper in _halvings(...) if not
+  wide)` - C19 discharges all its obligations on it).
+* **Rules**: C20.R2 ("every stored option is read") scanned for `self.<name>` in the class's own methods; options read by name through a
+  base-class table (R26-4) are now decided on the interpreted `forward` (the option's value occurs in the result or in a call). C05.R5
+  accepts any repository callable as the function handed to `bisect` (R21-3: a bound method of a named tuple). An event filter crashed on
+  events logged outside any function (R26-1).
+
+"""
+
+
+def round8():
+    res = V / "refactorings" / "RESULTS.md"
+    rows8 = []
+    for line in res.read_text().splitlines():
+        m = re.match(r"\| (R\d\d-\d) \| ([A-Za-z-]+) \| ([^|]*) \| ([^|]*) \|", line)
+        if m and m.group(1) >= "R21":
+            rows8.append(tuple(x.strip() for x in m.groups()))
+    if not rows8:
+        return
+    first8 = {"R21-3": "analysis error in C04, C05", "R22-1": "FALSE ALARM C06.R3, C15", "R22-2": "FALSE ALARM C03, C06, C14, C16, C17 + analysis error in C15",
+              "R22-3": "analysis error in C15", "R23-1": "FALSE ALARM C01, C03, C07, C16, C17 + analysis errors in C12, C13", "R24-1": "analysis errors in 8 checks",
+              "R25-2": "analysis errors in C02, C03", "R26-1": "analysis error in C06", "R26-2": "analysis errors in 7 checks", "R26-4": "FALSE ALARM C20.R2"}
+    t_ = "".join(f"| {rid} | {verdict}{' (first run: ' + first8[rid] + ')' if rid in first8 else ''} | {which} | {what[:140]} |\n" for rid, verdict, which, what in rows8)
+    p = V / "DESIGN.md"
+    s = p.read_text()
+    a = s.find("### 9.4h ")
+    b = s.find("### 9.5 ")
+    if a == -1:
+        a = b
+    p.write_text(s[:a] + INTRO8 + t_ + CHANGES8 + s[b:])
+    print(f"### 9.4h written: {len(rows8)} rows")
 
 
 FIRST7_TEXT = ("21 reported by the check of the property the agent named, for the defect itself; 4 reported for a reason tied to the new form rather than to the "
@@ -505,3 +572,4 @@ if __name__ == "__main__":
     main()
     refactorings()
     round7()
+    round8()
